@@ -188,13 +188,14 @@ func (c20) Gen(seed uint64, run int, tier string) *core.Case {
 	cfg := swarmCfg(r, 1)
 	cfg.Versioning = true
 	cfg.Instances = 1
+	cfg.CacheTTL = []int{0, 120}[r.IntN(2)]
 	p := c20Prog{Populated: run%4 != 0}
 	tab := routes.Table()
 	n := 40
 	for i := 0; i < n; i++ {
 		rt := tab[r.IntN(len(tab))]
 		cs := c20Case{Route: rt.ID, Slash: rt.Shape == "bucket" && r.IntN(4) == 0, Frag: r.IntN(4)}
-		cs.Cred = []string{"valid", "valid", "valid", "wrong-secret", "none"}[r.IntN(5)]
+		cs.Cred = []string{"valid", "valid", "valid", "wrong-secret", "none", "unknown-key"}[r.IntN(6)]
 		cs.Mode = []string{s3c.ModeSigned, s3c.ModeUnsigned}[r.IntN(2)]
 		if rt.Streams {
 			cs.Mode = s3c.AllModes[r.IntN(5)]
@@ -396,6 +397,8 @@ func (c20) Exec(c *core.Case) (out *core.Outcome) {
 			rq.Access, rq.Secret = gw.RootAccess, "wrong-secret-00000000000000000000"
 		case "none":
 			rq.Mode = s3c.ModeAnonymous
+		case "unknown-key":
+			rq.Access, rq.Secret = "NOSUCHKEY0000000"+fmt.Sprint(ci), "whatever-secret-0000000000000000"
 		}
 		sg := cl.Sign(rq)
 		// post-signing mutations
@@ -442,6 +445,8 @@ func (c20) Exec(c *core.Case) (out *core.Outcome) {
 			o.AddClass("%s|%s|%s|%s", name, fieldc, cs.Cred, statusClass(res.Resp.Status))
 		}
 		one := func() c20Prog { return c20Prog{Populated: p.Populated, Cases: []c20Case{cs}} }
+		// a request that never finishes may be the victim of an earlier one (a lock left held): keep the prefix
+		prefix := func() c20Prog { return c20Prog{Populated: p.Populated, Cases: append([]c20Case{}, p.Cases[:ci+1]...)} }
 		desc := fmt.Sprintf("case %d: %s %s [%s %s=%q cred=%s mode=%s frag=%d cut=%d%%]", ci, sg.Method, abbreviate(sg.Target, 120), name, fieldc, abbreviate(val, 60), cs.Cred, cs.Mode, cs.Frag, cs.CutPct)
 		switch {
 		case res.Serve.Panic != nil:
@@ -449,8 +454,9 @@ func (c20) Exec(c *core.Case) (out *core.Outcome) {
 			o.Violate("panic", "C20/panic/"+site, "%s: gateway panicked: %v at %s", desc, res.Serve.Panic, site)
 			o.SetReplayP(one())
 		case e.S.Aborted() != "":
-			o.Violate("wedged", "C20/wedged/"+name, "%s: request did not finish within %d steps", desc, e.S.MaxSteps)
-			o.SetReplayP(one())
+			o.Violate("wedged", "C20/wedged/"+name, "%s: request did not finish: %s", desc, e.S.Aborted())
+			e.S.ClearAbort()
+			o.SetReplayP(prefix())
 			return o
 		case cs.Cred != "valid" && alloc > 64<<20+8*uint64(len(wire)):
 			o.Violate("allocation", "C20/allocation/"+name+"/"+fieldc, "%s: request of %d wire bytes allocated %d MiB", desc, len(wire), alloc>>20)
@@ -488,7 +494,19 @@ func (c20) Exec(c *core.Case) (out *core.Outcome) {
 			}
 			continue
 		}
-		hp := e.Root().Do(s3c.ListBuckets())
+		// by root, and in a populated deployment every other time by an ordinary account (whose lookup goes
+		// through the account store and its cache)
+		hcl := e.Root()
+		if p.Populated && fx != nil && ci%2 == 1 {
+			hcl = e.User(fx.UserA.Access, fx.UserA.Secret)
+		}
+		hp := hcl.Do(s3c.ListBuckets())
+		if a := e.S.Aborted(); a != "" {
+			o.Violate("wedged", "C20/wedged-afterwards/"+name, "%s: the next request (a signed ListBuckets by %s) never finished: %s", desc, hcl.Access, a)
+			e.S.ClearAbort()
+			o.SetReplayP(prefix())
+			return o
+		}
 		if !hp.Resp.OK() {
 			o.Violate("health", "C20/health-probe-fails-after/"+name, "%s: a signed ListBuckets afterwards -> %d %s", desc, hp.Resp.Status, hp.Resp.ErrCode())
 			o.SetReplayP(one())
